@@ -139,6 +139,9 @@ def random_script(rng, name_no, nops, smaller=False):
         elif r < 0.95:
             lines.append("bclr %d" % h)
             used = 0
+        elif r < 0.98:
+            # a length at the top of the psize range: whatever the queue holds, it cannot fit
+            lines.append("bwhuge %d %d" % (h, rng.choice([1, 2, 3, max(1, used), used + 1, cap, cap + 1, 4096])))
         lines.append("bsp %d" % rng.choice(hs))
     for h in reversed(hs):
         lines.append("bfree %d" % h)
